@@ -228,4 +228,20 @@ PROPS = {
         "assumptions": ["a failing store operation has no effect on the store (it fails before acting)"],
         "timeout": 3000,
     },
+    "C05": {
+        "claimed": False,
+        "lean_props": ["ZarrsModel.Props.C05"],
+        "harness": "c05",
+        "rule": "random configurations (two thirds sharded: both index locations, plain / big-endian / crc32c index, nested shards, compressed or checksummed inner and outer chains; one third unsharded chains) "
+                "with experimental_partial_encoding ON; starting from absent or existing whole-chunk values, histories of 1-8 (thorough 1-12) chunk-subset and array-subset writes (growing, to-fill, small "
+                "constants, overlapping); every read is compared with the model of the full-rewrite semantics (= the same history with partial encoding off), then again through a re-opened handle; after "
+                "every chunk-subset write and at the end the RAW stored value of the chunk is handed to the Lean driver: a non-sharded value of a fully modelled chain must equal the model's encoding byte for "
+                "byte; an outermost shard must pass the independent layout parser (index at its declared location, live entries inside the value, outside the index, pairwise disjoint; sentinel only for "
+                "all-fill inner chunks); non-trivial = distinct read or raw judgement after at least one subset write",
+        "nontrivial": lambda l: (" op raw" in l and " -> raw " in l and not l.endswith("none")) or (" op retrieve" in l and " -> val " in l),
+        "exhaustive": False,
+        "trusted_base": COMMON_TB + ["raw values behind an outer compressor are only checked through reads (the compressor is a parameter)"],
+        "assumptions": ["key presence is not compared (partial encoders erase empty values); contents are"],
+        "timeout": 3000,
+    },
 }
